@@ -2,10 +2,10 @@
    topoSort, the Ast validator) for the volume correspondence runs.
    ExtrOcamlBasic only. *)
 From Coq Require Import Extraction ExtrOcamlBasic.
-From Martian Require Import Lib.Bytes Lib.Utf8 Mro.Ast K.Unquote K.FormatExp K.FormatGB K.TopoSort K.Same.
+From Martian Require Import Lib.Bytes Lib.Utf8 Mro.Ast K.Unquote K.FormatExp K.FormatGB K.TopoSort K.Same K.ExpComments.
 Extraction Language OCaml.
 Extraction "model.ml"
   b2n n2b
   quote_string format_int format_gb topo_sort valid_utf8 unquote
-  ast_same dep_ordered call_ids
+  ast_same dep_ordered call_ids fmt inorder
   mk_ast.
